@@ -513,7 +513,9 @@ static void run_tracing(Result &R, const Args &A) {
         cfgs.push_back(TraceCfg{g, N, f, per});
   };
   if (sel == "asan") {
-    add(1, 4, {0});
+    // memory-checked build: one geometry/field, no / full periodicity
+    cfgs.push_back(TraceCfg{1, 4, 0, 0});
+    cfgs.push_back(TraceCfg{1, 4, 0, 7});
   } else if (!A.thorough()) {
     add(1, 4, {0, 1});
     add(2, 4, {0});
@@ -567,6 +569,10 @@ static void run_tracing(Result &R, const Args &A) {
     R.hit_deadline(fmt("tracing: %zu of %zu (geometry, grid, field, periodicity) configurations completed", done_cfg, cfgs.size()));
   R.evaluations += total.ev;
   R.nontrivial += total.nontrivial;
+  if (!cfgs.empty())
+    R.sample(fmt("{\"part\": \"tracing\", \"first_configuration\": \"%d^3 cells, %s, field %s\", \"configurations\": %zu, "
+                 "\"start_points\": %d, \"directions\": 124, \"targets\": 2}",
+                 cfgs[0].N, GEOMS[cfgs[0].g].name, T_FIELDS[cfgs[0].field], cfgs.size(), 8 * cfgs[0].N * cfgs[0].N * cfgs[0].N));
   R.set("tracing_configurations", (double)cfgs.size());
   R.set("tracing_layouts_per_configuration_sum", (double)nlayout_runs);
   R.set("tracing_packets", (double)total.packets);
